@@ -1,4 +1,5 @@
 import Octo.Drv.OpsCodec
+import Octo.Drv.C19
 import Octo.Model.OpTime
 /-! C18 driver (single-input nodes): the same operator models as C15, and the oracle — monotone
     watermarks, no late records, and for the event-time buffer equality with the naive `bufSpec` —
@@ -6,7 +7,11 @@ import Octo.Model.OpTime
 namespace Octo.Drv.C18
 open Octo Octo.Codec Octo.Ops Octo.Drv.Ops
 
-def model (toks : List String) : String := Octo.Drv.Ops.model toks
+def model (toks : List String) : String :=
+  match toks with
+  | "sj" :: _ => Octo.Drv.C19.model toks     -- the join nodes under a chosen interleaving (shared with C19)
+  | "oj" :: _ => Octo.Drv.C19.model toks
+  | _ => Octo.Drv.Ops.model toks
 
 def joinedHasWm : Node → Bool
   | .lookup _ jm _ => jm.any isWm
@@ -27,7 +32,7 @@ def lateOnlyInFinalBatch (om : List Msg) : Bool :=
   let tail := (om.reverse.takeWhile (!isWm ·)).reverse
   (lateRecs [] om).length == (lateRecs (wms om) tail).length
 
-def judge (toks : List String) (out : List String) : String :=
+def judgeOps (toks : List String) (out : List String) : String :=
   match parseLine toks, parseImplOut out with
   | some l, some (cls, om) =>
     if cls == "panic" then "bad panic"
@@ -55,5 +60,38 @@ def judge (toks : List String) (out : List String) : String :=
         | _ => "ok"
   | none, _ => "bad unparsable-op"
   | _, none => "bad unparsable-impl-output"
+
+/-- the join half: given inputs that each have monotone watermarks, no late records and event times on every record,
+    the emitted sequence has monotone watermarks and no record at or below a watermark already emitted -/
+def judgeJoin (toks : List String) (out : List String) : String :=
+  match Octo.Drv.C19.parseOp toks with
+  | none => "bad unparsable-op"
+  | some op =>
+    if !(Octo.Drv.C19.freshB none op.left && Octo.Drv.C19.freshB none op.right &&
+         Octo.Drv.C19.allTimed op.left && Octo.Drv.C19.allTimed op.right) then "ok"   -- outside the property's hypothesis
+    else
+      match out with
+      | "ok" :: rest =>
+        match Octo.Codec.parseMsgs rest with
+        | none => "bad unparsable-output"
+        | some ms =>
+          if !((Octo.wms ms).zip ((Octo.wms ms).drop 1)).all (fun p => decide (p.1 ≤ p.2)) then "bad join-watermark-went-backwards"
+          else if !Octo.Drv.C19.freshB none ms then
+            -- an outer join must retract a NULL-padded row when its first match arrives later; that retraction carries
+            -- the padded row's event time, which may lie at or below a watermark emitted meanwhile
+            -- (likewise the padded row that re-appears when the last match of a record is retracted)
+            let isNull (v : Octo.Value) : Bool := match v with | .null => true | _ => false
+            let padded (r : Octo.Rec) : Bool := (r.vals.take op.cfg.nL).all isNull || (r.vals.drop op.cfg.nL).all isNull
+            let rest := ms.filter fun m => match m with | .data r => !padded r | .wm _ => true
+            if op.cfg.outer && Octo.Drv.C19.freshB none rest then "known outer-join-late-retraction padded-row-emitted-or-retracted-at-or-below-emitted-watermark"
+            else "bad join-emitted-late-record"
+          else "ok"
+      | _ => "ok"   -- panics / bad schedules are C19's subject
+
+def judge (toks : List String) (out : List String) : String :=
+  match toks with
+  | "sj" :: _ => judgeJoin toks out
+  | "oj" :: _ => judgeJoin toks out
+  | _ => judgeOps toks out
 
 end Octo.Drv.C18
